@@ -624,7 +624,9 @@ Definition replay_platform : platform := {| uid_len := 1; encode := fun bs => hd
 
 Definition replay_run (rp : replay) (x : export) : outcome :=
   fst (optimise current_code replay_platform (replay_config rp) 0
-                {| r_stream := rp_created rp; r_ids := Mocked |} (replay_oracles rp x)
+                {| r_stream := (match rp_kind rp with RandomSearch => [0] | Populational => [] end)
+                                 ++ rp_created rp;      (* random search first draws choice(initial_graphs) *)
+                   r_ids := Mocked |} (replay_oracles rp x)
                 (S (S (length (x_gens x))))).
 
 Definition fit_values (f : E.fit) : option (list Q) :=
